@@ -171,7 +171,44 @@ class Worker:
             lines.pop()
         return lines
 
+    def do_patch(self, m):
+        """a seeded change (seeded/<name>/patch.diff) instead of a one-line mutant: which properties notice it"""
+        res = {"file": m["name"], "line": 0, "op": "seeded-patch", "old": "", "new": m["patch"]}
+        t0 = time.time()
+        rc, out = sh("patch -p1 --no-backup-if-mismatch < %s" % m["patch"], cwd=self.repo)
+        try:
+            if rc != 0:
+                res["unit"] = "patch-failed"
+                return res
+            rc, out = sh(["cargo", "build", "--offline", "--quiet"], cwd=self.harness,
+                         env={"RUSTFLAGS": "--cfg casbin_verif -Awarnings", "CARGO_TARGET_DIR": self.htarget}, timeout=1200)
+            if rc != 0:
+                res["unit"] = "stillborn-harness"
+                return res
+            res["unit"] = "survives"
+            seen = {}
+            for pid in self.props:
+                impl = self.run_cases(pid)
+                mo = self.base[pid]["model"]
+                mm = sum(1 for a, b in zip(mo, impl) if a != b)
+                pf = 0
+                if mm:
+                    po = self.pred(pid, impl)
+                    bp = self.base[pid]["pred"]
+                    pf = sum(1 for a, b in zip(po, bp) if a != b and a not in ("1", "-"))
+                if mm or pf:
+                    seen[pid] = {"mismatch": mm, "pred_false": pf}
+            res["seen"] = seen
+            res["noticed"] = bool(seen)
+            res["failing_input"] = sorted(p for p, v in seen.items() if v["pred_false"])
+        finally:
+            sh("rsync -a --delete --exclude target --exclude .git /repo/ %s/" % self.repo)
+            res["wall"] = round(time.time() - t0, 1)
+        return res
+
     def do(self, m):
+        if "patch" in m:
+            return self.do_patch(m)
         path = os.path.join(self.repo, m["file"])
         orig = open(path, encoding="utf-8").read()
         lines = orig.split("\n")
@@ -268,6 +305,7 @@ def main():
     ap.add_argument("--tier", default="quick")
     ap.add_argument("--seed", type=int, default=1)
     ap.add_argument("--report", action="store_true")
+    ap.add_argument("--seeded", action="store_true", help="run every seeded/<name>/patch.diff instead of syntactic mutants")
     a = ap.parse_args()
     out = os.path.abspath(a.out)
     assert not out.startswith("/repo") and not out.startswith("/verif")
@@ -287,9 +325,15 @@ def main():
     os.makedirs(out, exist_ok=True)
     props = a.props.split(",")
     files = a.files.split(",")
-    muts = enumerate_mutants("/repo", files)
+    if a.seeded:
+        import glob
+        muts = [{"name": os.path.basename(os.path.dirname(f)), "patch": f, "file": os.path.basename(os.path.dirname(f)), "line": 0,
+                 "op": "seeded-patch", "new": f} for f in sorted(glob.glob(os.path.join(V, "seeded", "*", "patch.diff")))]
+    else:
+        muts = enumerate_mutants("/repo", files)
     rnd = random.Random(a.seed)
-    rnd.shuffle(muts)
+    if not a.seeded:
+        rnd.shuffle(muts)
     if a.max:
         muts = muts[:a.max]
     done = set()
